@@ -1,3 +1,56 @@
 import Cppcms.C07.Proto
-/-! `c08_model`: same protocol as `c07_model` (one model of `mem_cache` serves C07 and C08). -/
-def main : IO Unit := Cppcms.lineLoop ({} : Cppcms.C07.Proto.DState) Cppcms.C07.Proto.stepLine
+import Cppcms.C08.Spec
+/-!
+`c08_model`: the protocol of `c07_model` (one model of `mem_cache` serves C07 and C08) plus the
+C08 judge:
+
+`J8 <impl answer …> ; <case line …>` runs the reference cache of `C08/Spec.lean` (eviction rule
+written from the property text, independent of `Gen`/`Model`) over the history and demands that
+the implementation's answer (hit/miss, value, trigger set, deadline) and its `stats` after the
+operation are identical, and that the key count respects the limit.  Only for histories without
+memory pressure.  Answer `1` or `0 <reason>`.
+-/
+open Cppcms Cppcms.C07 Cppcms.C07.Proto Cppcms.C08
+
+structure D8 where
+  d : DState := {}
+  r : Ref := {}
+
+def judge8 (r : Ref) (w : List String) : Ref × String :=
+  let (implw, casew) := splitAt ";" w
+  let (res, tailw) := splitAt "|" implw
+  match casew with
+  | "new" :: _ :: limit :: _ =>
+    match limit.toNat? with
+    | some l => ({ limit := l }, if res == ["ok"] && tailw.take 2 == ["0", "0"] then "1" else "0 new")
+    | none => (r, "0 bad-new")
+  | _ =>
+    match parseOp casew with
+    | none => (r, "0 bad-case")
+    | some (op, _) =>
+      let (r', o) := r.step op
+      let countsOk : Bool := match tailw with
+        | k :: t :: _ => k.toNat? == some r'.keys && t.toNat? == some r'.links
+        | _ => false
+      let limitOk : Bool := r'.limit == 0 || (match tailw with | k :: _ => (k.toNat?.getD (r'.limit + 1)) ≤ r'.limit | [] => false)
+      let ansOk : Bool :=
+        match o, res with
+        | .miss, ["miss"] => true
+        | .hit v ts d _, ["hit", v', ts', d', _] =>
+          (match parseHex v', parseTrigs ts', d'.toInt? with
+           | some v', some ts', some d' => v == v' && sameSet ts ts' && nodupB ts' && d == d'
+           | _, _, _ => false)
+        | .done, ["ok"] => true
+        | .stats _ _, ["ok"] => true
+        | _, _ => false
+      (r', if !limitOk then "0 size-exceeds-limit"
+           else if !ansOk then s!"0 answer-differs-from-eviction-rule expected={outStr o}"
+           else if !countsOk then s!"0 stats-differ-from-eviction-rule expected={r'.keys},{r'.links}"
+           else "1")
+
+def step8 (st : D8) (line : String) : D8 × String :=
+  match words line with
+  | "J8" :: rest => let (r, o) := judge8 st.r rest; ({ st with r := r }, o)
+  | _ => let (d, o) := stepLine st.d line; ({ st with d := d }, o)
+
+def main : IO Unit := lineLoop ({} : D8) step8
